@@ -42,7 +42,7 @@ class Traced:
     (python scalars, strings, static fields) is closed over.  `conc` selects leaves kept concrete."""
 
     def __init__(self, f, args, prefix="a", conc=None, x64=True, use_stubs=False, sym_consts=False,
-                 trace_only_is_violation=False, missing="hint"):
+                 trace_only_is_violation=False, missing="hint", fallback_key=None):
         self.missing = missing          # value of symbols absent from a model: "hint" or "example"
         self.f = f; self.args = args; self.prefix = prefix; self.use_stubs = use_stubs
         self.dyn, self.static = eqx.partition(args, _is_arr)
@@ -219,14 +219,26 @@ class Recorder:
         return d
 
     # ------------------------------------------------------------------
-    def trace(self, prog, f, args, key=None, **kw):
+    def trace(self, prog, f, args, key=None, concrete_goals=None, **kw):
         """Traced(f, args) -- if the REAL code raises while being traced, it is run concretely on the
         example arguments: raising there too is a violation (the code rejects/crashes on an input the
         property covers); tracing-only failures are reported by the caller's policy (trace_only)."""
         if self.replay is not None and self.replay.get("goal") == "real code raises" :
             if self.replay.get("prog") != prog: return None
             try:
-                f(*args); self.replay_result = dict(reproduced=False, note="no exception")
+                if kw.get("use_stubs"): stubs.install()
+                try: out = f(*args)
+                finally:
+                    if kw.get("use_stubs"): stubs.uninstall()
+                self.replay_result = dict(reproduced=False, note="no exception")
+                if concrete_goals is not None:
+                    is_a = lambda x: x is None or _is_arr(x)
+                    Ac = jax.tree_util.tree_map(lambda x: conc_array(np.asarray(x)) if _is_arr(x) else x, args, is_leaf=is_a)
+                    Oc = jax.tree_util.tree_map(lambda x: conc_array(np.asarray(x)) if _is_arr(x) else x, out, is_leaf=is_a)
+                    old = dict(tm.CONCRETE); tm.CONCRETE["on"] = True
+                    try: bad = [g for g in concrete_goals(Ac, Oc) if g[1].is_const and not g[1].val]
+                    finally: tm.CONCRETE.update(old)
+                    if bad: self.replay_result = dict(reproduced=True, note="goal fails on the concrete example run: " + bad[0][0])
             except Exception as ex:
                 self.replay_result = dict(reproduced=True, note=f"{type(ex).__name__}: {ex}")
             return None
@@ -250,6 +262,29 @@ class Recorder:
                 self._record_violation(k, prog, "real code raises", {}, note=msg)
             elif kw.get("trace_only_is_violation"):
                 self._record_violation(k, prog, "real code raises", {}, note="runs eagerly but cannot be traced: " + msg)
+            elif concrete_goals is not None:
+                # the real code needs concrete values where the harness passes symbols: it cannot be encoded.  Fallback that is NOT
+                # solver-based (recorded as such): the goals are evaluated on one concrete run of the example arguments; a failing goal
+                # is a genuine, replayable violation, a passing run proves nothing and the program is reported inconclusive.
+                try:
+                    if kw.get("use_stubs"): stubs.install()
+                    try: out = f(*args)
+                    finally:
+                        if kw.get("use_stubs"): stubs.uninstall()
+                    is_a = lambda x: x is None or _is_arr(x)
+                    Ac = jax.tree_util.tree_map(lambda x: conc_array(np.asarray(x)) if _is_arr(x) else x, args, is_leaf=is_a)
+                    Oc = jax.tree_util.tree_map(lambda x: conc_array(np.asarray(x)) if _is_arr(x) else x, out, is_leaf=is_a)
+                    old = dict(tm.CONCRETE); tm.CONCRETE["on"] = True
+                    try: gs = list(concrete_goals(Ac, Oc))
+                    finally: tm.CONCRETE.update(old)
+                    bad = [g for g in gs if g[1].is_const and not g[1].val]
+                    for gname, _ in bad[:3]:
+                        self._record_violation((kw.get("fallback_key") or prog) + ":" + gname.split("==")[0].split("[")[0].strip()[:40], prog, "real code raises", {},
+                                               note=f"NOT solver-found: the real code cannot be traced ({msg}); the goal '{gname}' fails on the concrete example run")
+                    if not bad:
+                        self.inconclusive.append(f"{prog}: the real code cannot be traced ({msg}); concrete example run satisfies the goals - no verdict")
+                except Exception as ex3:
+                    self.inconclusive.append(f"{prog}: the real code cannot be traced ({msg}); concrete fallback failed: {type(ex3).__name__}: {ex3}")
             else:
                 self.errors.append(f"{prog}: tracing failed although the concrete run succeeds: {msg}")
             self.records.append(dict(prog=prog, goal="real code runs on the example input", verdict="sat", phase="trace", ms=0.0))
